@@ -22,9 +22,9 @@ Theorem translate_deterministic :
 Proof. intros p c st R. exact (root_new_ctx p c st R). Qed.
 Print Assumptions translate_deterministic.
 
-(* every plan of a log query is such a root *)
-Theorem plan_is_root : forall sel fin p, plan_log sel fin = Some p -> is_root p = true.
-Proof. exact plan_log_is_root. Qed.
+(* every plan of a log or metric query is such a root *)
+Theorem plan_is_root : forall s fin p, plan_script s fin = Some p -> is_root p = true.
+Proof. exact plan_script_is_root. Qed.
 Print Assumptions plan_is_root.
 
 (* Live tail: for every plan, every number of executions and every sequence of windows, the
